@@ -48,6 +48,10 @@ type Monitor struct {
 	// scratch dir and returns the argv to execute.
 	Wrapper func(argv []string, scratch string, chunk int) []string
 	// PostChunk, if set, is run by the driver after a chunk finishes (e.g. parse strace logs).
+	// Isolate, when it returns a non-empty label for case i, makes the driver run that case alone in
+	// its own worker process with its own race log; process-level evidence (deaths, race reports)
+	// from that process is keyed under "<label>/...". Ordinary workers skip such cases.
+	Isolate func(tier string, i int) string
 	PostChunk func(scratch string, chunk int, res *Result)
 }
 
@@ -334,6 +338,9 @@ func RunWorker(m *Monitor, tier string, seed int64, from, to int, out, journalPa
 	}()
 	var jb [8]byte
 	for i := from; i < to; i++ {
+		if m.Isolate != nil && !replay && m.Isolate(tier, i) != "" {
+			continue // run by the driver in a process of its own
+		}
 		w.cur = i
 		if w.journal != nil {
 			binary.BigEndian.PutUint64(jb[:], uint64(i))
